@@ -111,7 +111,7 @@ def FState.reset (da : DivArith) (u : FftUnit σ υ) (zero : σ) (s : FState σ 
 
 /-- cut a list into blocks of `n` (last one possibly short), like `slice::chunks` -/
 def chunksOf (n : Nat) (l : List σ) : List (List σ) :=
-  if h : n = 0 then [] else
+  if n = 0 then [] else
   if l.isEmpty then [] else
     go n l.length l
 where
